@@ -77,12 +77,43 @@ def parseEntry (j : Json) : Option IdxEntry := do
   some { name := ← oStr j "name", cls := ← oStr j "class", typ := ← oStr j "type", whr := ← oStr j "where",
          comment := ← oStr j "comment", option := ← oStr j "option", field := ← oStr j "field", priority := ← oInt j "priority" }
 
+def parseFieldId (j : Json) : Option FieldId := do
+  some { id := ← oStr j "id", schema := ← oStr j "schema" }
+
+def parseRef (j : Json) : Option Ref := do
+  let pk ← match (j.getObjVal? "pk").toOption with
+    | some Json.null => some none
+    | some v => (parseFieldId v).map some
+    | none => none
+  some { primaryKey := pk, primaryValue := ← oStr j "pv", foreignKey := ← parseFieldId (← (j.getObjVal? "fk").toOption),
+         ownPrimaryKey := ← oBool j "own" }
+
+def parseRelType : Str → RelType
+  | ['b', 'e', 'l', 'o', 'n', 'g', 's', '_', 't', 'o'] => .belongsTo
+  | ['h', 'a', 's', '_', 'o', 'n', 'e'] => .hasOne
+  | ['h', 'a', 's', '_', 'm', 'a', 'n', 'y'] => .hasMany
+  | _ => .many2many
+
+def parseRel (j : Json) : Option Rel := do
+  some { key := ← oStr j "key", typ := parseRelType (← oStr j "type"), schema := ← oStr j "schema",
+         fieldSchema := ← oStr j "fieldSchema", refs := ← (← oArr j "refs").toList.mapM parseRef,
+         hasJoinTable := ← oBool j "join", tag := ← oStr j "tag", defaultName := ← oStr j "defname" }
+
+def fidJ (f : FieldId) : Json := sJ f.id
+
+def constraintJ (c : Constraint) : Json :=
+  Json.mkObj [("name", sJ c.name), ("schema", sJ c.schema), ("ref", sJ c.refSchema),
+    ("fks", Json.arr (c.fks.map fidJ).toArray), ("refs", Json.arr (c.refs.map fidJ).toArray),
+    ("ondelete", sJ c.onDelete), ("onupdate", sJ c.onUpdate)]
+
 end HC20
 open HC20 in
 /-- ops:
     ["mig.column", field, col]            -> {"acts":[…], "full": lower-cased full type, "trace":{…}}
     ["mig.auto", model, table|null]       -> [[kind, name]…]   (one AutoMigrate iteration for one model)
     ["mig.reorder", [deps…], [values…], autoAdd] -> [table…]
+    ["mig.constraint", rel, [rels of the referenced schema…]] -> null | {name,schema,ref,fks,refs,ondelete,onupdate}
+    ["mig.addcolumn", table, field]       -> the ALTER TABLE … ADD … statement text
     ["mig.indexes", [entries…]]           -> [{name,class,type,where,comment,option,fields:[[field,priority]…]}…] -/
 def handleC20 (op : String) (args : Array Json) : Option Json := do
   match op with
@@ -107,6 +138,16 @@ def handleC20 (op : String) (args : Array Json) : Option Json := do
     let vs := (← (← jArr? (arg args 2)).toList.mapM jStr?).map String.toList
     let autoAdd ← jBool? (arg args 3)
     some (Json.arr ((reorderModels g vs autoAdd).map sJ).toArray)
+  | "mig.constraint" =>
+    let rel ← parseRel (arg args 1)
+    let rels ← (← jArr? (arg args 2)).toList.mapM parseRel
+    some (match parseConstraint rel rels with
+      | none => Json.null
+      | some c => constraintJ c)
+  | "mig.addcolumn" =>
+    let t := (← jStr? (arg args 1)).toList
+    let f ← parseField (arg args 2)
+    some (sJ (addColumnSQL t f))
   | "mig.indexes" =>
     let es ← (← jArr? (arg args 1)).toList.mapM parseEntry
     some (Json.arr ((parseIndexes es).map fun i => Json.mkObj [
